@@ -11,6 +11,7 @@ CONSTANTS
   Mutate = FALSE
   Dedup = FALSE
   Validate = TRUE
+  AllowUnrigged = FALSE
 SPECIFICATION Spec
 INVARIANTS L2SharedOnce
 CHECK_DEADLOCK FALSE
